@@ -633,6 +633,35 @@ def per_occurrence(rng, e):
 def workload(ctx):
     rng = ctx.rng
     with HandlerTrace([unimod], callback=_work_cb) as tr:
+        # first of all, calls that FAIL (an operand that cannot be hashed, among 3 .. 6 operands,
+        # facing two or three plain pattern variables) -- the caller catches the error; everything
+        # below runs in a process with that history
+        fv = p.Variable("f")
+        for cls in (p.Sum, p.Product):
+            for n in (3, 4, 5, 6):
+                for k in (2, 3):
+                    tgt = cls((*TV[:2], *[p.Variable(f"u{i}") for i in range(n - 3)], p.Call(fv, ([1, 2],))))
+                    pat = cls(tuple(PV[:k]))
+                    for pt in (pat, cls((*PV[:k], p.Call(fv, (PV[0],))))):
+                        try:
+                            UnidirectionalUnifier("pqr")(pt, tgt)
+                        except RecursionError:
+                            raise
+                        except Exception:  # noqa: BLE001
+                            ctx.count("failed_unifications_first")
+        # ... then renamings in which the plain variables must share out the left-over operands
+        # in every possible way
+        a_, b_, c_ = (p.Variable(n_) for n_ in ("u1", "u2", "u3"))
+        for cls in (p.Sum, p.Product):
+            other = p.Product if cls is p.Sum else p.Sum
+            for pat, tgt in ((cls((PV[0], PV[1], PV[2], p.Call(fv, (PV[1],)))), cls((a_, b_, c_, p.Call(fv, (a_,))))),
+                             (cls((PV[0], PV[1], PV[2], p.Call(fv, (PV[2],)))), cls((a_, b_, c_, p.Call(fv, (a_,))))),
+                             (cls((PV[0], PV[1], p.Call(fv, (PV[1],)))), cls((a_, b_, p.Call(fv, (a_,))))),
+                             (cls((PV[0], PV[1], other((PV[1], 2)))), cls((b_, a_, other((a_, 2))))),
+                             (cls((PV[0], PV[1], PV[2], other((PV[0], PV[2])))), cls((c_, b_, a_, other((b_, a_)))))):
+                ctx.case(("after-failure", normal.typed_key(pat)), True, n=0)
+                ctx.count("renamings_after_failed_calls")
+                ctx.run("C16.unify", (pat, tgt, "pqr", "rename"))
         for i in range(ctx.per_shard(ctx.pick(2500, 50000))):
             pat = gen(rng, rng.randint(1, 3), PV + TV[:1])
             if not isinstance(pat, p.Expression):
@@ -805,6 +834,8 @@ def workload(ctx):
     ctx.floor("result_lists_extended_by_the_caller", 1500)
     ctx.floor("wide_patterns", 40)
     ctx.floor("deep_patterns", 25)
+    ctx.floor("failed_unifications_first", 20)
+    ctx.floor("renamings_after_failed_calls", 10)
     ctx.floor("near_equal_number_pairs", 20)
     ctx.floor("records", 1000)
     ctx.floor("mode:rename", 500)
